@@ -86,22 +86,19 @@ where
 /// Marks the current thread as blocked
 pub(crate) fn park(location: Location) {
     let switch = execution(|execution| {
-        use thread::State;
         let thread = execution.threads.active_id();
         let active = execution.threads.active_mut();
 
         trace!(?thread, ?active.state, "park");
 
-        match active.state {
-            // The thread was previously unparked while it was active. Instead
-            // of parking, consume the unpark.
-            State::Runnable { unparked: true } => {
-                active.consume_unpark();
-                return false;
-            }
-            // The thread doesn't have a saved unpark; set its state to blocked.
-            _ => active.set_blocked(location),
-        };
+        // The thread was previously unparked while it was not parked. Instead
+        // of parking, consume the unpark.
+        if active.consume_unpark() {
+            return false;
+        }
+
+        // The thread doesn't have a saved unpark; set its state to blocked.
+        active.set_blocked(location);
 
         execution.threads.active_mut().set_blocked(location);
         execution.threads.active_mut().operation = None;
@@ -113,7 +110,9 @@ pub(crate) fn park(location: Location) {
     }
 
     // Woken up by an unpark: consume it.
-    execution(|execution| execution.threads.active_mut().consume_unpark());
+    execution(|execution| {
+        execution.threads.active_mut().consume_unpark();
+    });
 }
 
 /// Add an execution branch point.
